@@ -73,7 +73,9 @@ fn worker_main(engine: &'static dyn Engine, tier: Tier, seed: u64) -> i32 {
             let _ = writeln!(o, "BEGIN");
             let _ = o.flush();
         }
-        let r = engine.execute(&scn, &env);
+        let t0 = std::time::Instant::now();
+        let mut r = engine.execute(&scn, &env);
+        r.stats.elapsed_ms = t0.elapsed().as_millis() as u64;
         seam::disarm();
         let mut o = stdout.lock();
         let _ = writeln!(o, "END {}", serde_json::to_string(&r).unwrap());
